@@ -159,6 +159,12 @@ def write_source(path, fmt, trees, enc, v4, gz):
     else:
         text = encode_tiger_plain(trees, {"utf-8": "utf-8", "latin-1": "iso-8859-1", "utf-16": "utf-16"}[enc])
     data = text.encode(PY_ENC[enc])
+    if gz and int(gz) > 1:
+        # several gzip members in one file (what `cat a.gz b.gz` or a block-wise compressor produces) are one gzip file
+        cut = len(data) // 2
+        with open(path, "wb") as stream:
+            stream.write(gzip.compress(data[:cut]) + gzip.compress(data[cut:]))
+        return
     with (gzip.open(path, "wb") if gz else open(path, "wb")) as stream:
         stream.write(data)
 
@@ -222,6 +228,9 @@ def check(case):
     trees = source_models(case)
     first_id = case.get("firstid")
     src_opts = ["quiet"] + (["brackets_firstid:%d" % first_id] if (first_id is not None and sfmt in ("brackets", "discobrackets")) else [])
+    if case.get("src_sep"):
+        # a separator for the reader's gf_split is without effect when gf_split is not requested - also on the writer
+        src_opts.append("gf_separator:" + case["src_sep"])
     counted = bool(case.get("continuous")) and sfmt in ("export", "tigerxml")
     if counted:
         src_opts.append("continuous")
@@ -370,9 +379,9 @@ def words_for(sfmt, dfmt, encs):
 
 
 @st.composite
-def conv_case(draw, max_tokens, max_sents, sub_fraction):
-    sfmt = draw(st.sampled_from(SRC))
-    dfmt = draw(st.sampled_from(DEST))
+def conv_case(draw, max_tokens, max_sents, sub_fraction, srcs=SRC, dests=DEST):
+    sfmt = draw(st.sampled_from(srcs))
+    dfmt = draw(st.sampled_from(dests))
     senc = draw(st.sampled_from(["utf-8", "utf-8", "latin-1", "utf-16"]))
     denc = draw(st.sampled_from(["utf-8", "utf-8", "latin-1", "utf-16"]))
     skip = dfmt == "brackets" and sfmt != "brackets" and draw(st.integers(0, 2)) == 0
@@ -394,8 +403,11 @@ def conv_case(draw, max_tokens, max_sents, sub_fraction):
         dopts.append("brackets_emptyroot")
     if skip:
         dopts.append("brackets_skipdisco")
+    elif dfmt != "brackets" and draw(st.integers(0, 5)) == 0:
+        dopts.append("brackets_skipdisco")      # an option of the bracket writer: without effect on the other writers
     return {"src": sfmt, "dest": dfmt, "src_enc": senc, "dest_enc": denc, "trees": trees, "v4": draw(st.booleans()),
-            "gz": sfmt != "tigerxml" and draw(st.integers(0, 4)) == 0, "dirmode": draw(st.integers(0, 5)) == 0, "dest_opts": dopts,
+            "gz": draw(st.sampled_from([0, 0, 0, 0, 1, 2])) if sfmt != "tigerxml" else 0, "dirmode": draw(st.integers(0, 5)) == 0, "dest_opts": dopts,
+            "src_sep": draw(st.sampled_from([None, None, None, "+", "#"])),
             "sub": draw(st.floats(0, 1)) < sub_fraction, "back": True, "third": draw(st.sampled_from([None, None] + DEST)),
             "root_label": draw(st.sampled_from(["VROOT", "VROOT", "TOP", "S"])), "novroot": draw(st.integers(0, 2)) == 0,
             "firstid": draw(st.sampled_from([None, None, 0, 0, 7, 1000])), "continuous": draw(st.integers(0, 3)) == 0}
